@@ -905,7 +905,9 @@ def get_principal_component_matrix(A: np.ndarray,
     newS[:num_components] = S[:num_components]
     newS = np.diag(newS)[:, :num_cols]
 
-    out = np.dot(U, np.dot(newS, V_H[:, :num_components]))
+    # newS has min(num_rows, num_cols) columns: only that many rows of V_H
+    # meet a singular value (all of them unless A has more columns than rows)
+    out = np.dot(U, np.dot(newS, V_H[:newS.shape[1], :num_components]))
 
     return out
 
